@@ -28,6 +28,16 @@ def read_roots(ctx: Ctx) -> List[Func]:
     return roots
 
 
+WRITE_MODE_ONLY = ["_write_flush", "_prepare_write", "_prepare_append"]
+
+
+def read_closure(ctx: Ctx) -> Dict[str, Func]:
+    """closure of the read-mode API; the write-mode-only helpers (reachable from close()/__init__ only under a mode test,
+    which R12.1 verifies) are cut."""
+    stop = [szf(ctx, n).qname for n in WRITE_MODE_ONLY]
+    return ctx.res.closure(read_roots(ctx), stop=stop)
+
+
 def targets_of(ctx: Ctx, f: Func, call: ast.Call) -> List[str]:
     cs = ctx.res.site_of(f, call)
     return [t.qname for t in cs.targets] if cs else []
